@@ -79,7 +79,7 @@ type family struct {
 var families []family
 
 func registerFamily(name string, props []string, run func(e *env)) {
-	families = append(families, family{name, run, props})
+	families = append(families, family{name, run, append(props, "C19")}) // data races are every scenario's subject
 }
 
 func runEpisode(f family, seed int64, strategy string) (*episodeResult, *vt.Sched, *env) {
@@ -280,6 +280,12 @@ func writeSlices(sw *bufio.Writer, s *vt.Sched, tag string) int {
 	}
 	if want("pool") {
 		n += writePoolSlices(sw, s, tag)
+	}
+	if want("hb") {
+		n += writeHBSlices(sw, s, tag)
+	}
+	if want("lock") {
+		n += writeLockSlices(sw, s, tag)
 	}
 	return n
 }
